@@ -431,6 +431,14 @@ func (g *hdGen) op() hdOp {
 				return hdOp{K: "tick", O: 1}
 			}
 		}
+		if (g.opts.limits || g.opts.endings || g.opts.resume) && r.chance(14) {
+			// the connection goes away while its hello is being processed
+			g.removeConn(c)
+			if len(g.dropped) > 0 && r.chance(50) {
+				return hdOp{K: "helloabort", C: c, Ht: "resume", Id: &hdIdRef{T: "priv", C: pick(r, g.dropped)}}
+			}
+			return hdOp{K: "helloabort", C: c, B: r.intn(2), U: r.intn(4), Late: r.chance(60)}
+		}
 		if r.chance(80) {
 			return g.hello(c)
 		}
